@@ -247,3 +247,59 @@ def reads_as_military(y):
 # clock notations that are unambiguous next to a date (a subset of CLOCK)
 DATE_CLOCKS = ["HH:MM", "H:MM", "HH:MM Uhr", "H:MMh", "h:MMam", "h:MM am", "h:MM a.m.", "H Uhr", "ham", "h am", "HhMM"]
 DATE_CLOCK_JOIN = [" ", " at ", " um "]
+
+# ---------------------------------------------------------------------------
+# ranges (C07)
+# ---------------------------------------------------------------------------
+RANGE_JOIN = {
+    "-": "{a} - {b}", "-tight": "{a}-{b}", "to": "{a} to {b}", "bis": "{a} bis {b}", "until": "{a} until {b}",
+    "til": "{a} til {b}", "between-and": "between {a} and {b}", "von-bis": "von {a} bis {b}",
+    "from-to": "from {a} to {b}", "zwischen-und": "zwischen {a} und {b}", "from-until": "from {a} until {b}",
+}
+RANGE_HOUR_FORMS = {
+    "H:MM": lambda h, m: "%d:%02d" % (h, m), "HH:MM": lambda h, m: "%02d:%02d" % (h, m),
+    "H Uhr": lambda h, m: "%d Uhr" % h if m == 0 else "%d:%02d Uhr" % (h, m),
+    "ham": lambda h, m: ("%d%s" if m == 0 else "%d:{:02d}%s".format(m)) % (_h12(h), _ap(h, "am", "pm")),
+}
+# contexts: name -> (prefix, how the day is determined).  'morgen' is not used
+# as a context: next to a clock range the library's part-of-day pattern gives
+# it the competing reading 'morning'.  There is no rule for '<range> <date>'.
+RANGE_CTX = ["none", "date", "am d.m.", "tomorrow", "on friday", "freitag"]
+
+BEFORE_WORDS = ["before", "vor", "bis", "spätestens", "bis spätestens", "spätestens bis"]
+AFTER_WORDS = ["after", "nach", "ab", "from"]
+NOT_BEFORE_WORDS = ["not before", "nicht vor"]
+NOT_AFTER_WORDS = ["not after", "nicht nach"]
+# excluded with the competing reading: 'latest' / 'earliest' / 'frühestens'
+# also name the parts of day 'last' / 'first'; English 'until' is only a joiner
+
+# ---------------------------------------------------------------------------
+# durations (C08)
+# ---------------------------------------------------------------------------
+UNIT_WORDS = {
+    "nights": ["nacht", "nächte", "nachte", "night", "nights", "übernachtung", "ubernachtung"],
+    "days": ["tag", "tage", "day", "days"],
+    "minutes": ["m", "minute", "minuten", "minutes"],
+    "hours": ["stunde", "stunden", "hour", "hours"],
+    "weeks": ["week", "weeks", "woche", "wochen"],
+    "months": ["monat", "monate", "month", "months"],
+}
+# excluded with the competing reading: the unit letter 'h' after a number is the
+# clock suffix ('5 h' = 5 o'clock); a digit followed by singular 'nacht'/'night'
+# reads as '<day of month> <part of day>' ('3 night' = the 3rd, at night)
+DIGIT_UNIT_EXCLUDED = {"nacht", "night"}
+NUM_EN = ["one", "two", "three", "four", "five", "six", "seven", "eight", "nine", "ten", "eleven", "twelve", "thirteen",
+          "fourteen", "fifteen", "sixteen", "seventeen", "eighteen", "nineteen", "twenty", "twentyone", "twentytwo",
+          "twentythree", "twentyfour", "twentyfive", "twentysix", "twentyseven", "twentyeight", "twentynine", "thirty",
+          "thirtyone"]
+NUM_DE = ["ein", "zwei", "drei", "vier", "fünf", "sechs", "sieben", "acht", "neun", "zehn", "elf", "zwölf", "dreizehn",
+          "vierzehn", "fünfzehn", "sechzehn", "siebzehn", "achtzehn", "neunzehn", "zwanzig", "einundzwanzig",
+          "zweiundzwanzig", "dreiundzwanzig", "vierundzwanzig", "fünfundzwanzig", "sechsundzwanzig", "siebenundzwanzig",
+          "achtundzwanzig", "neunundzwanzig", "dreißig", "einunddreißig"]
+NUM_ONE_VARIANTS = ["a", "an", "one", "ein", "eine", "eins"]
+HALF_FORMS = {
+    "half an hour": (30, "minutes"), "half a day": (12, "hours"), "halbe stunde": (30, "minutes"),
+    "1/2 hour": (30, "minutes"), "half hour": (30, "minutes"), "half day": (12, "hours"), "1/2 day": (12, "hours"),
+    "halbe stunden": (30, "minutes"), "half a hour": (30, "minutes"), "halb tag": (12, "hours"),
+    "halbe tage": (12, "hours"), "1/2 stunde": (30, "minutes"),
+}
